@@ -100,7 +100,14 @@ def run(R):
         return None
 
     R.need(len(dispatch) >= 3, "idiom: fewer than 3 dispatch calls in the drain (%d)" % len(dispatch))
+    live = dcfg.reachable([dcfg.entry], N)
     for n, c in dispatch:
+        R.check(n.id in live, "C03.DISPATCH-UNCOMPUTED", "%s:live:%s" % (drain.qualname, q.stmt_key(c)[:50]), R.site(drain, c),
+                "%s is reachable" % q.src(c)[:40],
+                "the dispatch arm %s is unreachable: stack entries of that kind (tasks / batch items / plain futures) are mishandled by another arm" % q.src(c)[:40])
+    for n, c in dispatch:
+        if n.id not in live:
+            continue
         starts = [e.dst for e in dcfg.out_edges(topnode.id, N)]
         p = kit.path_avoiding_guard(dcfg, [n], unc, N, sources=starts)
         R.check(p is None, "C03.DISPATCH-UNCOMPUTED", "%s:%s" % (drain.qualname, q.stmt_key(c)[:50]), R.site(drain, c),
